@@ -301,7 +301,7 @@ class Ctx:
             self.notes[f'{sub}:rounds'] = 'max rounds of collect-then-' \
                                           'continue reached'
 
-    def fuzz(self, sub, runs, max_len=4096, timeout=3600):
+    def fuzz(self, sub, runs, max_len=4096, timeout=3600, unit_timeout=300):
         """Coverage-guided campaign (atheris/libFuzzer over the Hypothesis
         strategy registered in the check's FUZZ table) in a subprocess; its
         counters, samples and violations are merged under `<sub>@fuzz`."""
@@ -317,7 +317,8 @@ class Ctx:
                '--runs', str(int(runs)), '--seed', str(self.hseed(sub, 99)),
                '--tier', self.tier, '--shard',
                f'{self.shard[0]}/{self.shard[1]}', '--out', out,
-               '--max-len', str(max_len)]
+               '--max-len', str(max_len),
+               '--unit-timeout', str(int(unit_timeout))]
         try:
             try:
                 p = subprocess.run(cmd, cwd=VERIF, capture_output=True,
@@ -373,8 +374,16 @@ class Ctx:
             info['edges_covered'] = int(cov[-1][0])
             info['features'] = int(cov[-1][1])
             info['edges_after_first_input'] = int(cov[0][0])
+        if 'ALARM: working on the last Unit' in err or 'libFuzzer: timeout' in err:
+            # one generated input ran longer than unit_timeout seconds:
+            # libFuzzer ended the campaign there (a time budget hit is
+            # inconclusive, never a violation); results so far are kept
+            info['ended_by_slow_unit_s'] = int(unit_timeout)
+            self.inconclusive[f'{name}:slow unit (> {unit_timeout} s)'] += 1
         self.notes[f'{name}:libfuzzer'] = info
-        if info['executions'] < min(50, int(runs)) and not self.harness_errors:
+        if info['executions'] < min(50, int(runs)) and \
+                not self.harness_errors and \
+                'ended_by_slow_unit_s' not in info and rc != 'timeout':
             raise HarnessError(f"{name}: only {info['executions']} executions "
                                f"(rc={rc}): {err[-800:]}")
 
